@@ -49,13 +49,13 @@ CLAIMED.update({
 
 CLAIMED.update({
  "C04": ("reflect-kind dataflow over the type dispatch of the inference function; guard vocabulary of the null-adding stores; frozen table of marshaler types; constant comparison of integer bounds; guard analysis of the required list; purity and provenance rules on the tag parser",
-         "Code-shape clauses of inference soundness: kinds handled, null only extends an existing type, marshaler table matches the JSON encodings (big.Int is a known finding), embedded tags consulted (known finding), bounds equal kind ranges, required iff neither omitempty nor omitzero, tag parser pure, exact integrality test. Not agreement with encoding/json's dynamic field resolution.", "4/C04"),
+         "Code-shape clauses of inference soundness: kinds handled, null only extends an existing type, marshaler table matches the JSON encodings (big.Int is a known finding), embedded fields treated as encoding/json treats them (name tags, non-struct types; fields promoted through an embedded pointer being required is a known finding), bounds equal kind ranges, required iff neither omitempty nor omitzero, tag parser pure, exact integrality test, every schema-returning exit passes the pointer-flag test. Not agreement with encoding/json's dynamic field resolution.", "4/C04"),
  "C09": ("dominating-guard and skippability analysis of the struct path (closed objects, required), constant bounds table with allocation freshness, provenance of array length and element schemas, independence of the numeric keyword group from `type`",
          "Inferred schemas are tight in shape: every struct closed, required exactly under the two option tests, bounds equal to kind ranges and fresh, array length fixed, element schemas recursive, bounds enforced for nullable integers. Not agreement with the decoder.", "4/C09"),
  "C15": ("dominating guards of every instance mutation in the default applier (not-required, missing/present), provenance of inserted values, sibling agreement between applier and has-nested-defaults predicate, skippability and traversal analysis of default validation",
          "Defaults are applied only to missing, non-required properties with fresh copies of the declared default (or containers under the predicate); present values are written back unchanged; default validation covers the full tree and can be skipped by nothing but the absence of a default. Not idempotence as an observation.", "4/C15"),
  "C16": ("clone-provenance of every table/override schema entering the result; write-effect analysis of the closure of For; test-mark-defer discipline of the cycle set; order-insensitivity classifier; tag parser purity and option provenance; index-prefix comparison for promoted fields",
-         "Isolation and determinism of inference: substituted schemas always cloned, no shallow copies, per-call table and cycle set, nothing shared is written, cycle mark removed on every exit, map iterations order-insensitive, tag options exact, order de-duplicated. Not agreement with encoding/json for every tag string (D8, D9).", "4/C16"),
+         "Isolation and determinism of inference: substituted schemas always cloned, no shallow copies, per-call table and cycle set, nothing shared is written, cycle mark removed on every exit, map iterations order-insensitive, tag options exact, order de-duplicated. Not agreement with encoding/json's name resolution by depth (D9).", "4/C16"),
 })
 
 CLAIMED.update({
